@@ -56,6 +56,9 @@ func verifC18Dial() {
 			a.end = vNowNanos() - t0
 			a.returned = true
 		}()
+		if a.ctxDead {
+			return nil, ctx.Err() // a well-behaved dial function honours its context
+		}
 		if a.outcome == 2 {
 			<-ctx.Done()
 			return nil, ctx.Err()
@@ -144,8 +147,8 @@ func verifC18Dial() {
 		if a.conn != nil && a.conn != conn {
 			vAssert(a.conn.closed, "every other established connection is closed")
 		}
-		if a.ctxDead {
-			vAssert(a.conn == nil, "an attempt begun after the outcome was decided runs under a cancelled context")
+		if a.start > tEnd {
+			vAssert(a.ctxDead, "an attempt begun after the outcome was decided runs under a cancelled context")
 		}
 	}
 	vReach("quiesced")
